@@ -23,7 +23,7 @@ fn standalone(p: &Pool, policy: Policy, ti: usize, di: usize) -> String {
         Err(_) => return "parser-build-error".into(),
     };
     match parser.parse(&p.mains[ti]) {
-        Ok(t) => render(&t, &p.datas[di].to_object()).summary(),
+        Ok(t) => render(&t, &p.datas[di].to_object()).summary_with_error(),
         Err(_) => "parse-error".into(),
     }
 }
@@ -38,7 +38,7 @@ fn run_history(p: &Pool, policy: Policy, hist: &[(usize, usize)], expected: &[Ve
     let mut calls = 0;
     for (step, &(ti, di)) in hist.iter().enumerate() {
         let got = match &templates[ti] {
-            Some(t) => render(t, &datas[di]).summary(),
+            Some(t) => render(t, &datas[di]).summary_with_error(),
             None => "parse-error".into(),
         };
         calls += 1;
